@@ -397,6 +397,24 @@ class Analysis:
         a function-like object or a class, both of which have __qualname__ and __name__."""
         if not isinstance(v, ast.Name):
             return False
+        # second spelling: `named = func if hasattr(func, "__qualname__") else type(func)` -
+        # every binding of the receiver is a class, or a copy of x made where hasattr(x, ...) holds
+        binds = [x for x in walk_own(func.node) if isinstance(x, ast.Assign) and any(isinstance(t, ast.Name) and t.id == v.id for t in x.targets)]
+        if binds and v.id not in func.params:
+            ok_ids = set()
+            for st in walk_own(func.node):
+                if not isinstance(st, ast.If):
+                    continue
+                t, pos = st.test, True
+                while isinstance(t, ast.UnaryOp) and isinstance(t.op, ast.Not):
+                    t, pos = t.operand, not pos
+                if not (isinstance(t, ast.Call) and isinstance(t.func, ast.Name) and t.func.id == "hasattr" and len(t.args) == 2 and isinstance(t.args[0], ast.Name) and isinstance(t.args[1], ast.Constant) and t.args[1].value in ("__qualname__", "__name__")):
+                    continue
+                for b in (st.body if pos else st.orelse):
+                    if isinstance(b, ast.Assign) and isinstance(b.value, ast.Name) and b.value.id == t.args[0].id:
+                        ok_ids.add(id(b))
+            if all(id(b) in ok_ids or self._is_class_valued(func, b.value) for b in binds) and any(id(b) in ok_ids for b in binds):
+                return True
         for st in walk_own(func.node):
             if not isinstance(st, ast.If) or st.orelse:
                 continue
